@@ -367,6 +367,21 @@ def fam_f5(tier):
                 spec = {'kind': 'opus', 'tracks': tracks, 'spt': 18, 'ext': 'sdd', 'vols': vols}
                 yield {'spec': spec, 'targets': 'all', 'cmds': ['bin', 'dump'], 'sig': 'C01:F5:opus:prefix',
                        'extract': True}
+    # volumes whose start tracks are not in letter order (the table maps each letter to any track): every permutation
+    # of the track assignment for 2 and 3 volumes, and some for 4
+    import itertools as _it
+    for letters in (['A', 'B'], ['A', 'B', 'C'], ['A', 'C', 'F'], ['A', 'B', 'C', 'D']):
+        starts = [1 + 3 * i for i in range(len(letters))]
+        perms = list(_it.permutations(starts))
+        if len(letters) == 4:
+            perms = perms[::5]
+        for perm in perms:
+            vols = {}
+            for L, trk in zip(letters, perm):
+                vols[L] = {'track': trk, 'files': [ent('LAST', 53, 256), ent('MID', 20, 700), ent('F' + L, 0, 257)], 'total': 54, 'title': 'V' + L}
+            spec = {'kind': 'opus', 'tracks': 40, 'spt': 18, 'ext': 'sdd', 'vols': vols}
+            yield {'spec': spec, 'targets': 'all', 'cmds': ['bin'], 'how': ['full', 'dir', 'novol'],
+                   'sig': 'C01:F5:opus:track-order' + ('' if list(perm) == sorted(perm) else ':unsorted'), 'extract': True}
     # separately signed: single-volume disc and non-prefix volume sets
     for letters in (['A'], ['A', 'C'], ['A', 'H'], ['A', 'B', 'D'], ['A', 'C', 'E', 'G'], ['A', 'B', 'C', 'H']):
         vols = {}
